@@ -185,7 +185,22 @@ def run_one(ch, cfg):
                 der = base64.b64decode("".join(pem_txt.strip().split("\n")[1:-1]))
                 r = att_sgx.validate(rc, der, w.clock.now)
                 ok = r.get("quote", (False,))[0]
+        same_root = False
         if site == "root":
+            # an altered root may still denote the same key (e.g. 0x04 -> 0x06/0x07: the hybrid SEC1
+            # encoding of the same point); only then may verification keep succeeding
+            if platform == "ledger":
+                g = att_ledger.parse_pubkey(dev.issuer.pub65)
+                a = att_ledger.parse_pubkey(bytes.fromhex(root_hex))
+                same_root = a is not None and a.x() == g.x() and a.y() == g.y()
+            else:
+                try:
+                    x = att_sgx.X509(der)
+                    same_root = att_sgx.x509_valid(x, x, w.clock.now) and \
+                        x.vk.to_string() == info["pki"].root_sk.verifying_key.to_string()
+                except Exception:
+                    same_root = False
+        if site == "root" and not same_root:
             viol.append(("verify/accepted-altered-root", desc))
         elif changed:
             viol.append(("verify/accepted-altered-values", desc + " changed: %s" % changed))
